@@ -6,39 +6,39 @@ ROOT = os.path.dirname(os.path.dirname(os.path.abspath(__file__)))
 
 # property id -> (technique, level text, level note, design ref)
 CHECKS = {
- "C18": ("static structural clauses on the plugin packages: STABLE-MEANS-STABLE (who-may-call unstable sorts), NO-INPUT-MUTATION (taint of received slices through slicing/conversions/sub-slice-returning stdlib calls to writes and appends), NO-POST-DELIVERY-MUTATION (reused emit buffers), FLAVOUR-AGREEMENT (per-byte unicode classification), plus the core-contract rules (ERR-RESULT-USED, RELEASE, CTX-PROVENANCE, STATE-LEVEL, ERR-PROPAGATION, USER-FN-CONTEXT) re-run with plugin scope",
+ "C18": ("static structural clauses on the plugin packages: STABLE-MEANS-STABLE (who-may-call unstable sorts), NO-INPUT-MUTATION (taint of received slices through slicing/conversions/sub-slice-returning stdlib calls to writes and appends), NO-POST-DELIVERY-MUTATION (reused emit buffers), FLAVOUR-AGREEMENT (per-byte unicode classification), FLUSH-BEFORE-TERMINAL (sinks over buffered writers), plus the core-contract rules (ERR-RESULT-USED, RELEASE, CTX-PROVENANCE, STATE-LEVEL, ERR-PROPAGATION, USER-FN-CONTEXT) re-run with plugin scope",
          "Narrow claim. Equality of each emitted value with the wrapped library function on all inputs, round trips and sortedness are value-level and NOT decided. Decided on the 12 plugin packages the property names: stable means stable, no write through a received slice or its derivatives, no emission of a reused buffer, no per-byte classification in the byte flavour, error results become Error notifications, and the core contract clauses (release, context, per-subscription state). Found and fixed SortStableFunc, NewIOReader and bytes.Ellipsis; bytes.Words' byte/rune mismatch is test-pinned and recorded.",
          "Trusted: documented aliasing behaviour of the listed standard-library functions; console writes (os.Stdout/Stderr) are not lifted functions.",
          "DESIGN.md section 4, C18"),
- "C19": ("static analysis of ee/plugins/prometheus: FORWARDER (each instrumentation operator is the identity on notifications and contexts), COUNT-ONCE (placement and multiplicity of metric updates), LICENCE-BOTH-ARMS (licence evaluated in the subscribe closure, arms built from the same operators, guarded early returns), PIPE-ARMS (generated PipeK: plain arm vs interleaved observers with matching name/position/index), RELEASE, NO-DOWNGRADE, STATE-LEVEL with plugin scope",
+ "C19": ("static analysis of ee/plugins/prometheus: FORWARDER (each instrumentation operator is the identity on notifications and contexts), COUNT-ONCE (placement and multiplicity of metric updates), LICENCE-BOTH-ARMS (licence evaluated in the subscribe closure, arms built from the same operators, guarded early returns), PIPE-ARMS (generated PipeK: plain arm vs interleaved observers with matching name/position/index), RELEASE, NO-DOWNGRADE, STATE-LEVEL, CTX-PROVENANCE with plugin scope; FORWARDER requires every reaching definition of the forwarded context to derive from the received one",
          "Static discipline check: transparency follows from every instrumentation operator forwarding each notification exactly once, unconditionally, with its own payload and a context derived from the received one (or handing the destination upstream), given C01-C03/C09 for the core; counter exactness follows from each metric update sitting unconditionally in the slot its operator names, once per event; all 24 generated PipeK are checked arm against arm (the type checker cannot see an arg3/arg4 slip). Numeric equality with a trace is the argued consequence, not measured. The OpenTelemetry plugin cannot be type-checked offline and is out of reach.",
          "Trusted: core properties; prometheus client semantics.",
          "DESIGN.md section 4, C19"),
- "C20": ("static structural clauses: FILTER-SHAPE (the ulule limiter is a synchronous per-item filter: one store query with the item's key and context, at most one unmodified forward guarded by !Reached and err == nil, nothing buffered, terminals propagated), NATIVE-COMPOSITION (parameter plumbing of the native limiter), ERR-RESULT-USED / ERR-PROPAGATION / RELEASE / CTX-PROVENANCE with plugin scope",
+ "C20": ("static structural clauses: FILTER-SHAPE (the ulule limiter is a synchronous per-item filter: one store query with the item's key and context, at most one unmodified forward guarded by !Reached and err == nil, nothing buffered, terminals propagated), NATIVE-COMPOSITION (parameter plumbing of the native limiter), ERR-RESULT-USED / ERR-PROPAGATION / RELEASE / CTX-PROVENANCE with plugin scope, and STATE-LEVEL / SUBJECT-BROADCAST-LOCKED / SUBJECT-DELIVERS re-run with package ro armed (the native limiter composes core operators)",
          "Narrow claim. The quota per time window is NOT decided (clock, store, and run-time behaviour of GroupBy/WindowWhen/MergeAll). Decided: the structural reasons for per-key order, no duplication and propagation of terminals in the ulule limiter, the conversion of store errors into Error notifications, and that the native limiter's count/interval/key parameters reach Take/Interval/GroupBy.",
          "Trusted: ulule/limiter's Get/Reached semantics.",
          "DESIGN.md section 4, C20"),
- "C04": ("static structural clauses only: ADAPTER (delegating variants are pure adapters), ALIAS (aliases forward every parameter once), PIPE (typed PipeN/PipeOpN apply operators in order), NO-POST-DELIVERY-MUTATION (an emitted slice/map is re-bound before being written again)",
-         "Narrow claim. What each operator computes on every input is NOT decidable statically and is not claimed. Decided are the clauses of the property that are visible in the code's shape: 67 delegating variants are observationally identical to their base form because their adapter literal calls the user function once with its own parameters and returns the right context; 24 aliases forward all parameters; 50 typed pipe functions apply operators in order (composition); no retained container is modified after delivery.",
+ "C04": ("static structural clauses only: ADAPTER (delegating variants are pure adapters), ALIAS (aliases forward every parameter once), PIPE (typed PipeN/PipeOpN apply operators in order), NO-POST-DELIVERY-MUTATION (an emitted slice/map is re-bound before being written again), DEAD-EMISSION (no notification after a certain terminal), TERMINAL-PROPAGATION (every path of a complete slot goes on), PARAM-USED (every observable/callback parameter is referenced), CONTEXTLESS-DELEGATES, STATE-LEVEL",
+         "Narrow claim. What each operator computes on every input is NOT decidable statically and is not claimed. Decided are the clauses of the property that are visible in the code's shape: 67 delegating variants are observationally identical to their base form because their adapter literal calls the user function once with its own parameters and returns the right context; 24 aliases forward all parameters; 50 typed pipe functions apply operators in order (composition); no retained container is modified after delivery; no result is emitted after the terminal; a completing source always leads to a terminal or a further subscription; no input observable or user callback is ignored; the 29 context-less methods delegate; state is per subscription.",
          "Trusted: go/types. Base forms' values, boundaries and the reflective Pipe are out of reach.",
          "DESIGN.md section 4, C04"),
- "C17": ("static typestate/table checks: close-site discipline of operator-created channels (CLOSE-ONCE), sends only in recovering slots (SEND-RECOVERED), queue discipline of ToChannel/detachOn (BOUNDED-QUEUE), sink shape of ToSlice/ToMap (SINK-ON-COMPLETE), FromChannel's receive loop (FROM-CHANNEL), writer/reader kind tables of notifications (MATERIALIZE-TABLE), Collect (COLLECT-WAITS)",
+ "C17": ("static typestate/table checks: close-site discipline of operator-created channels (CLOSE-ONCE), sends only in recovering slots (SEND-RECOVERED), queue discipline of ToChannel/detachOn (BOUNDED-QUEUE), sink shape of ToSlice/ToMap (SINK-ON-COMPLETE), FromChannel's receive loop (FROM-CHANNEL), writer/reader kind tables of notifications (MATERIALIZE-TABLE), Collect (COLLECT-WAITS), STATE-LEVEL; CLOSE-ONCE also requires a close site, a close reachable from the teardown and a consumer for every channel that is sent into",
          "Static discipline check of the bridges: channels are closed exactly once (single teardown-only site or sync.Once), never sent to outside a recovering slot, terminal notifications are queued before the close; ToSlice/ToMap emit once at completion the container their next slot fills; FromChannel completes on close and stops on teardown; the notification constructors, the materializing writers and the dispatching readers agree kind by kind (so Materialize∘Dematerialize preserves kinds). Contents of containers and consumer behaviour are not decided.",
          "Trusted: channel semantics; C03 (teardown once); C07 (slots recover).",
          "DESIGN.md section 4, C17"),
- "C06": ("static CFG ordering and who-may-lock analysis of subscriber.go / subscription.go / observable.go: compare-and-swap dominates the finalizer run (UNSUB-FLIPS-FIRST), query methods never acquire the producer lock (call-graph over same-type methods), terminal-before-close, Wait's signalling channel discipline (WAIT-SIGNAL), no other Wait shortcut (WAIT-IMPLEMENTORS), no subject notifies under a lock its subscriber teardown takes (CALLBACK-REENTRANCY), Collect's wait-before-return and returned variables (COLLECT-WAITS)",
+ "C06": ("static CFG ordering and who-may-lock analysis of subscriber.go / subscription.go / observable.go: compare-and-swap dominates the finalizer run (UNSUB-FLIPS-FIRST), query methods never acquire the producer lock (call-graph over same-type methods), terminal-before-close, Wait's signalling channel discipline (WAIT-SIGNAL), no other Wait shortcut (WAIT-IMPLEMENTORS), no subject notifies under a lock its subscriber teardown takes (CALLBACK-REENTRANCY), no operator notifies its destination (or subscribes it) under a lock its own teardown takes (NO-EMIT-UNDER-TEARDOWN-LOCK, lock names followed through helper parameters), Collect's wait-before-return and returned variables (COLLECT-WAITS)",
          "Static check of the structural premises behind 'Unsubscribe cuts delivery' and 'Wait/Collect tell the truth': the status is closed before finalizers run (so, with the Next gate, a notification started afterwards is refused), query methods and Unsubscribe are callable from inside callbacks, terminals are delivered before the subscriber closes, Wait blocks only on a buffered channel signalled solely by a teardown it registers, Collect waits before every return and returns what its observer gathered, Unsubscribe is idempotent. Decided exhaustively for the three core files; the real-time claim is the argued consequence.",
          "Trusted: sync/atomic, sync.Mutex, channel semantics.",
          "DESIGN.md section 4, C06"),
- "C10": ("static structural clauses: lock-set guarded-by analysis of the five subjects (GUARDED-BY), status gates and registration under the gate (SUBJECT-GATE), terminal stored before broadcast / observers dropped / removal teardown (SUBJECT-TERMINAL), backlog replay before stored terminal (REPLAY-BEFORE-TERMINAL), single-observer guard (UNICAST-SINGLE), feature-by-feature sibling cross-check (SIBLING-TABLE), broadcasts under the mutex",
+ "C10": ("static structural clauses: lock-set guarded-by analysis of the five subjects (GUARDED-BY), status gates and registration under the gate (SUBJECT-GATE), terminal stored before broadcast / observers dropped / removal teardown (SUBJECT-TERMINAL), backlog replay before stored terminal (REPLAY-BEFORE-TERMINAL), single-observer guard (UNICAST-SINGLE), feature-by-feature sibling cross-check (SIBLING-TABLE), broadcasts under the mutex, SUBJECT-DELIVERS (each notification kind reaches the observers through the subject's helpers; termination empties the observer set; late subscribers get the stored terminal), CALLBACK-REENTRANCY",
          "Narrow claim. Linearizability over concurrent histories is NOT decided (no static argument in reach). Decided: the locking and ordering discipline on which the sequential definitions and the linearization argument rest, for all five subjects, plus agreement between the four broadcasting siblings. One test-pinned violation (unicast delivers the stored terminal before its backlog to a late subscriber) is a known finding.",
          "Trusted: sync.Mutex and sync.Map semantics.",
          "DESIGN.md section 4, C10"),
- "C11": ("static structural clauses: lock-set analysis of Share's per-application state with inferred 'requires lock' closures (SHARE-GUARDED), control dependence of the upstream subscribe site on the created-flag / no-live-connection guard (SINGLE-CONNECT), once-per-path reference-count pairing (REFCOUNT-PAIRING), reset decision before the terminal broadcast (RESET-BEFORE-TERMINAL), guarded fields of the connectable observable (CONNECTABLE-GUARDED), configuration plumbing of ShareReplay",
+ "C11": ("static structural clauses: lock-set analysis of Share's per-application state with inferred 'requires lock' closures (SHARE-GUARDED), control dependence of the upstream subscribe site on the created-flag / no-live-connection guard (SINGLE-CONNECT), once-per-path reference-count pairing (REFCOUNT-PAIRING), reset decision before the terminal broadcast (RESET-BEFORE-TERMINAL), RESET-RELEASES (reset unsubscribes the connection, the teardown calls it at zero, flags cleared per connection, connectable reset teardown), guarded fields of the connectable observable (CONNECTABLE-GUARDED), configuration plumbing of ShareReplay",
          "Narrow claim. Event histories (subscribe/unsubscribe/notification/connect sequences) are NOT decided. Decided: the discipline that makes 'at most one live upstream subscription' true — connection state only touched under the mutex, upstream subscribed only where a new connection was installed / no live connection exists, reference count changed exactly once per (un)subscription under the lock with the zero test after the decrement.",
          "Trusted: sync.Mutex; subjects honour C10.",
          "DESIGN.md section 4, C11"),
- "C13": ("static lock-set discipline (Eraser) by data-flow of held locks over go/cfg: fields of the goroutine-safe types (CONSISTENT-PROTECTION/types), closure variables of safe operators reachable from possibly-concurrent emission contexts (CONSISTENT-PROTECTION/operators), Share state, lock pairing",
+ "C13": ("static lock-set discipline (Eraser) by data-flow of held locks over go/cfg: fields of the goroutine-safe types (CONSISTENT-PROTECTION/types), closure variables of safe operators reachable from possibly-concurrent emission contexts (CONSISTENT-PROTECTION/operators), state handed to helpers by pointer (CONSISTENT-PROTECTION/helpers: the lock belief the helper itself states), Share state, lock pairing incl. closures called with their own lock held",
          "Static discipline check: reports every location of the state the property names that is not consistently protected (atomic, concurrency-safe type, one common mutex, or ordered by S1-S4) — for 9 types (~220 field accesses) and the closure variables of all safe operators. It found the connectable-observable race (fixed; confirmed by the race detector). It does not prove absence of all races in the Go memory model and executes nothing.",
          "Trusted: sync, sync/atomic, channels, xsync/xatomic wrappers; values reached through pointers handed to helpers are checked inside the helper.",
          "DESIGN.md section 4, C13"),
@@ -46,15 +46,15 @@ CHECKS = {
          "Static check of the structural premises from which the notification grammar follows for every pipeline and schedule: each delivery in subscriberImpl/observerImpl/subjects is dominated by the open-status test or a won compare-and-swap, the status only moves away from open, every Observable implementation wraps its destination, refused notifications reach the hook. These premises are decided exhaustively on every run; the short interleaving argument that turns them into the property is written in DESIGN.md and is not machine-checked. One test-asserted violation (observer stays open after a panicking Next) is a known finding.",
          "Trusted: sync/atomic and sync.Mutex; users' own Observer implementations are out of scope.",
          "DESIGN.md section 4, C01"),
- "C05": ("static structural clauses only: ERR-PROPAGATION (error slot of every upstream subscribe site reaches an Error notification to the destination, from the subscribe-closure model), NO-PREMATURE-RELEASE (siblings are unsubscribed inside a slot only on paths that terminate the output; resource graph + CFG path test), ARITY (K+1 sites / K+1-tuples / counter constants / flag-queue pairing of the CombineLatestWithK and ZipWithK families), RACE-LATE-LOSER, COMPOSITION (Merge*->MergeAll, Concat*/FlatMap*->ConcatAll), SEQUENTIAL-INNER-GUARD",
-         "Narrow claim. The property quantifies over arrival orders (run-time histories), which static analysis cannot decide; what is decided is one of its clauses that is visible in the code's shape — 'an error from any source ends the output': every subscribe site's error slot forwards to the destination unless the operator consumes errors by definition — that siblings are not released while the output goes on, that a sequential flattener does not subscribe the next inner after the end, that Race re-tests its winner after each subscribe, which flattening operator the composed operators delegate to — plus arity agreement of the fixed-arity families. Ordering, completion timing, loss/duplication in general are NOT decided. Found and fixed Zip's premature release and ConcatAll's subscribe-after-error.",
+ "C05": ("static structural clauses only: ERR-PROPAGATION (error slot of every upstream subscribe site reaches an Error notification to the destination, from the subscribe-closure model), NO-PREMATURE-RELEASE (siblings are unsubscribed inside a slot only on paths that terminate the output; resource graph + CFG path test), ARITY (K+1 sites / K+1-tuples / counter constants / flag-queue pairing of the CombineLatestWithK and ZipWithK families), RACE-LATE-LOSER, COMPOSITION (Merge*->MergeAll, Concat*/FlatMap*->ConcatAll), SEQUENTIAL-INNER-GUARD, OUTER-COMPLETE-WAITS-INNER (incl. counted-before-subscribe), TERMINAL-PROPAGATION, PARAM-USED",
+         "Narrow claim. The property quantifies over arrival orders (run-time histories), which static analysis cannot decide; what is decided is one of its clauses that is visible in the code's shape — 'an error from any source ends the output': every subscribe site's error slot forwards to the destination unless the operator consumes errors by definition — that siblings are not released while the output goes on, that a sequential flattener does not subscribe the next inner after the end, that Race re-tests its winner after each subscribe, which flattening operator the composed operators delegate to — plus arity agreement of the fixed-arity families. Ordering, completion timing, loss/duplication in general are NOT decided. Found and fixed Zip's premature release, ZipAll's early completion and ConcatAll's subscribe-after-error.",
          "Trusted: C01 (first terminal closes the destination) and C03 (teardown releases the other sources). Two test-asserted violations (TakeUntil/SkipUntil swallow the notifier's error) are known findings.",
          "DESIGN.md section 4, C05"),
  "C08": ("static who-may-use analysis of asynchrony constructs (goroutines, timer callbacks, channel sends) against the emission contexts of the subscribe-closure model (SYNC-EMISSION); structural checks of the hand-off queues (BOUNDED-QUEUE) and of the blocking producer lock (LOCK-REGION)",
          "Static discipline check: in every operator with an upstream, each value emission provably runs in the subscribe body or inside an upstream callback (never under a goroutine/timer context, never parked in a channel) except in the documented hand-off/time-shift operators; the hand-off queues are one channel with the size parameter as capacity, all three notification kinds go through it, terminals are queued before close, dispatch is kind-exact. Decides 'nothing is handed to a hidden goroutine or queue' for all operators; the numeric run-ahead bound follows from channel semantics and is not measured.",
          "Trusted: Go channel semantics; user callbacks do not start goroutines; Delay's unbounded queue is out of the property's list.",
          "DESIGN.md section 4, C08"),
- "C14": ("static analysis of blocking sites (Wait, Collect, range over channel, select) located by the model's contexts before the subscribe closure returns, against teardowns registered on the destination (NO-UNCANCELLABLE-BLOCK); context-case check of context-aware sources (CTX-WATCH); must-release of the teardown chain (RELEASE, SELF-UNSUBSCRIBE, ADD-TEARDOWN)",
+ "C14": ("static analysis of blocking sites (Wait, Collect, range over channel, select) located by the model's contexts before the subscribe closure returns, against teardowns registered on the destination (NO-UNCANCELLABLE-BLOCK); context-case check of context-aware sources (CTX-WATCH); must-release of the teardown chain (RELEASE incl. dropped-on-some-path, SELF-UNSUBSCRIBE, ADD-TEARDOWN), registered-before-wait, NO-EMIT-UNDER-TEARDOWN-LOCK",
          "Static argument that upstream release is the teardown chain, plus the complementary who-may-block rule: every unbounded wait that runs before an operator's subscribe function returns is reported unless something registered on the destination can end it. Seven such waits exist today by design (Concat/FlatMap, Retry, OnErrorResumeNextWith, DoWhile, While, RepeatWith, SubscribeOn) and are recorded as known findings with demonstrations; any new blocking site, a dropped context case or a broken teardown link is reported.",
          "Trusted: a Subscription closes only through its terminal, its Unsubscribe or a subscription it was added to; timer-bounded waits are accepted.",
          "DESIGN.md section 4, C14"),
@@ -62,7 +62,7 @@ CHECKS = {
          "Narrow claim. Counting attempts against the configuration is value-level and NOT decided. Decided: the structural necessary condition of 'strictly one after another' — each attempt's subscription is awaited before the loop continues (or the next source is subscribed from the previous one's terminal slot), attempts forward their values, Retry tests the context before each attempt and during the delay.",
          "Trusted: Wait returns only when the subscription is closed (C06).",
          "DESIGN.md section 4, C15"),
- "C07": ("static effect/placement analysis: emission context of every user-function call (USER-FN-CONTEXT) and go statement (GO-RECOVER) from the subscribe-closure model; structural checks of the core recover points (CORE-RECOVER); error-result discipline (ERR-RESULT-USED); Unwrap table (UNWRAP); CFG lock pairing on all functions (LOCK-PAIRING); unlocks that a panicking callee can skip (PANIC-SAFE-UNLOCK); which error slot ends a failed delivery (ERROR-KIND); no TryLock in terminal methods (LOCK-REGION)",
+ "C07": ("static effect/placement analysis: emission context of every user-function call (USER-FN-CONTEXT) and go statement (GO-RECOVER) from the subscribe-closure model; structural checks of the core recover points (CORE-RECOVER); error-result discipline (ERR-RESULT-USED); Unwrap table (UNWRAP); CFG lock pairing on all functions (LOCK-PAIRING); unlocks that a panicking callee can skip (PANIC-SAFE-UNLOCK); which error slot ends a failed delivery (ERROR-KIND); no TryLock in terminal methods (LOCK-REGION); the recover handler sends the Error before unsubscribing (CORE-RECOVER)",
          "Static discipline check: decides, for every operator, in which kind of place each user-supplied function runs and whether a panic there becomes an Error notification (subscribe body, next slot, guarded goroutine) or can only reach the hook / crash the process (error/complete slots, timer callbacks, bare goroutines); that the recover points of observableImpl/observerImpl exist and wrap the right calls; that returned errors are emitted and do not fall through; that no function exits holding a lock. Five genuine by-design violations are recorded as known findings. Does not inject faults.",
          "Trusted: lo.TryCatchWithErrorValue recovers; the notion of 'user-supplied' = function parameters of exported API functions (parameters of unexported helpers that only receive library literals are excluded, decided from the call sites).",
          "DESIGN.md section 4, C07"),
@@ -74,11 +74,11 @@ CHECKS = {
          "Static discipline check of the premises of the serialisation argument: deliveries only inside the producer lock region; the lock is real exactly in safe modes; every operator whose destination can be reached from two possibly-concurrent contexts (derived from the code, not from a name list: 23 operators today) uses a safe constructor; a subscriber is never replaced by a weaker one; subjects broadcast under their mutex. It decides these for every operator on every run; it does not explore schedules.",
          "Trusted: sync.Mutex/atomic semantics; the hypothesis that each individual source is sequential; the ordering facts S1-S4 of DESIGN.md section 2; the model walker (unknown constructs fail closed).",
          "DESIGN.md section 4, C02"),
- "C09": ("static def-use classification of every context operand (CTX-PROVENANCE: origins of the ctx argument of every upstream subscription and notification, through tuples, containers, atomic.Value, struct fields, closure/helper parameters) plus a who-may-call rule for context.Background()/TODO() (NO-FRESH-CONTEXT) and CTX-PAIRING (a queued notification is emitted with the context stored with it: value and context come from the same container element / same receive)",
+ "C09": ("static def-use classification of every context operand (CTX-PROVENANCE: origins of the ctx argument of every upstream subscription and notification, through tuples, containers, atomic.Value, struct fields, closure/helper parameters) plus a who-may-call rule for context.Background()/TODO() (NO-FRESH-CONTEXT) and CTX-PAIRING (a queued notification is emitted with the context stored with it: value and context come from the same container element / same receive), the slot-context clause (a notification sent from a source callback never carries the bare subscription-time context; unique reaching definition) and DEAD-CONTEXT-STORE",
          "Static provenance check: for each of ~800 context sinks in package ro (subscribe sites and notifications of every operator, subjects, subscriber, connectable) the operand is traced to its origins; only the subscriber context, the slot context, user-callback results and context.With* of those are accepted, zero values must be guarded by a dominating assignment or a companion flag, unknown forms fail closed. Decides that no operator drops, replaces or nils the context on any path; does not decide which of several allowed contexts is the intended one.",
          "Trusted: go/types; the induction hypothesis that the upstream source honours the property; four hand-argued zero-value exemptions listed in rules/c09.go. Plugins are reported as INFO here and armed under C18.",
          "DESIGN.md section 4, C09"),
- "C12": ("static AST/type analysis: declaration-level vs write-level of every captured variable (STATE-LEVEL), who-may-call rule for Subscribe/Collect outside subscribe closures (LAZY-SOURCE), stateful objects (mutex, Once, atomic, channel, map, subject) created at an outer level but used per subscription, subscribe-site multiplicity, append aliasing at application time",
+ "C12": ("static AST/type analysis: declaration-level vs write-level of every captured variable (STATE-LEVEL), who-may-call rule for Subscribe/Collect outside subscribe closures (LAZY-SOURCE), stateful objects (mutex, Once, atomic, channel, map, subject) created at an outer level but used per subscription, subscribe-site multiplicity, append aliasing at application time, PARAM-USED",
          "Static discipline check over every operator of package ro (and, as INFO, the plugins): proves that no closure level that runs more often writes state declared at an outer level, that no source is touched at construction/application time and that each parameter source has one subscribe site per subscription. It decides the structural premise of re-subscribability for every operator on every run; it does not compare notification sequences.",
          "Trusted: go/types resolution, the level model (constructor / application literal / subscribe closure) extracted from the observable constructors, the one-symbol hot-construct exemption (ShareWithConfig). Not decided: state behind pointers in user arguments.",
          "DESIGN.md section 4, C12"),
